@@ -70,7 +70,68 @@ let hashmap_main () =
        | Crash c -> Printf.printf "CRASH %s\n" (crash_name c))
   done with End_of_file -> ())
 
+(* ---------------- unicode / literals ---------------- *)
+let bytes_str l = String.concat " " (List.map (fun x -> string_of_int (int_of_n x)) l)
+
+(* one line per code point in [lo,hi): encoder bytes | decoder result on them | utf16 units *)
+let utf_main lo hi =
+  let b = Buffer.create (1 lsl 20) in
+  for c = lo to hi - 1 do
+    let n = n_of_int c in
+    let e = encode_utf8 n in
+    let d = match decode_utf8 (e @ [n_of_int 65]) with
+      | DecOk (c', rest) -> Printf.sprintf "%d+%d" (int_of_n c') (List.length rest)
+      | DecErr -> "err" | DecPastEnd -> "pastend" in
+    Buffer.add_string b (Printf.sprintf "%d: %s | %s\n" c (bytes_str e) d);
+    if Buffer.length b > (1 lsl 20) then (print_string (Buffer.contents b); Buffer.clear b)
+  done;
+  print_string (Buffer.contents b)
+
+let utf16_main () =
+  (try while true do
+    let c = int_of_string (String.trim (input_line stdin)) in
+    Printf.printf "%d: %s\n" c (bytes_str (utf16_units (n_of_int c)))
+  done with End_of_file -> ())
+
+(* identifier classes: one character per code point in [lo,hi): 0 none, 1 cont only, 3 start+cont *)
+let ident_main lo hi =
+  let b = Buffer.create (hi - lo + 1) in
+  for c = lo to hi - 1 do
+    let n = n_of_int c in
+    let v = (if is_ident1_m n then 2 else 0) + (if is_ident2_m n then 1 else 0) in
+    Buffer.add_char b (Char.chr (48 + v))
+  done;
+  print_endline (Buffer.contents b)
+
+let identspec_main lo hi =
+  let b = Buffer.create (hi - lo + 1) in
+  for c = lo to hi - 1 do
+    let n = n_of_int c in
+    let v = (if spec_ident_start n then 2 else 0) + (if spec_ident_cont n then 1 else 0) in
+    Buffer.add_char b (Char.chr (48 + v))
+  done;
+  print_endline (Buffer.contents b)
+
+let ity_name = function TInt -> "int" | TUInt -> "uint" | TLong -> "long" | TULong -> "ulong"
+(* stdin lines: "<dec:0|1> <l:0|1> <u:0|1> <value decimal>"; output: "<model type> <spec type|none>" *)
+let lit_main () =
+  (try while true do
+    let line = input_line stdin in
+    match String.split_on_char ' ' (String.trim line) with
+    | [d; l; u; v] ->
+      let b x = x = "1" in
+      let v = n_of_string v in
+      Printf.printf "%s %s\n" (ity_name (lit_type (b d) (b l) (b u) v))
+        (match c11_literal_type (b d) (b l) (b u) v with Some t -> ity_name t | None -> "none")
+    | _ -> failwith ("bad line: " ^ line)
+  done with End_of_file -> ())
+
 let () =
   match Array.to_list Sys.argv with
   | [_; "hashmap"] -> hashmap_main ()
+  | [_; "utf"; lo; hi] -> utf_main (int_of_string lo) (int_of_string hi)
+  | [_; "ident"; lo; hi] -> ident_main (int_of_string lo) (int_of_string hi)
+  | [_; "identspec"; lo; hi] -> identspec_main (int_of_string lo) (int_of_string hi)
+  | [_; "lit"] -> lit_main ()
+  | [_; "utf16"] -> utf16_main ()
   | _ -> prerr_endline "usage: modelrun <area>"; exit 2
